@@ -91,7 +91,13 @@ class SymStr(object):
         return repr(self)
 
     def __hash__(self):
-        raise llsym.Unsupported('hash() of a symbolic str (used as dict key / set member)')
+        # used as dict key / set member: fork over the feasible concrete values (short strings only)
+        if len(self.chars) > 2:
+            raise llsym.Unsupported('hash() of a symbolic str longer than 2 (dict key / set member)')
+        out = []
+        for c in self.chars:
+            out.append(c if isinstance(c, int) else self.ex.concretize(c, CW, 300, 'character used as dict key'))
+        return hash(''.join(chr(c) for c in out))
 
     def __add__(self, o):
         b = self._lift(o)
